@@ -1,6 +1,9 @@
 import Tickit.Model.LifeOps
 import Tickit.Proof.LifeCopy
 import Tickit.Proof.LifeStep
+import Tickit.Proof.LifePens
+import Tickit.Proof.LifeKeys
+import Tickit.Proof.LifeMouse
 import Tickit.Gen.Life
 /-
   Property C08 — no API history touches freed or foreign memory, and everything is released.
@@ -24,7 +27,7 @@ def extracted : Cfg :=
 /-- The source tree contains the repairs the theorems below need (close purges the queue and forgets the drag
     source, destroy closes a child before dropping its reference, `get_span_text` terminates only with room).
     A tree that loses one of them breaks this obligation at build time. -/
-theorem extracted_repaired : Repaired extracted := ⟨by decide, by decide, by decide, by decide⟩
+theorem extracted_repaired : Repaired extracted := ⟨by decide, by decide, by decide, by decide, by decide, by decide, by decide⟩
 
 /-! ## bounded_copy — copy-out calls never write beyond the length given -/
 
@@ -75,8 +78,10 @@ example : (displayText true 3 [[0x41], [0x42]]).stores = [(0, 0x41), (1, 0), (1,
 
 /-! ## no_ub — no history touches freed memory, dereferences NULL or aborts -/
 
-/-- A history of operations that run no event handler, possibly finished by `end`. -/
-def PlainHistory (ops : List Op) : Prop := ∀ op ∈ ops, op.plain = true ∨ op = .«end»
+/-- A history of operations that deliver no key or mouse event, possibly finished by `end`: the handler-free
+    operations, and the pen operations whose `TICKIT_PEN_ON_CHANGE` handlers take and drop references to pens
+    (`Op.penEvent`: set_colour_attr, set_colour_attr_desc, copy, copy_attr, bind, unbind). -/
+def PlainHistory (ops : List Op) : Prop := ∀ op ∈ ops, op.plain = true ∨ op.penEvent = true ∨ op = .«end»
 
 /-- **no_ub** (after the repairs): for every state satisfying the invariant and every history of window /
     pen / string / buffer / terminal operations in any order — references taken and dropped, windows closed or
@@ -90,8 +95,11 @@ theorem no_ub : ∀ (ops : List Op) (st : St), SInv st → PlainHistory ops →
   | [], st, inv, _ => ⟨st, rfl, inv⟩
   | op :: rest, st, inv, h => by
     have hrest : PlainHistory rest := fun o ho => h o (by simp [ho])
-    rcases h op (by simp) with hp | he
+    rcases h op (by simp) with hp | hpe | he
     · obtain ⟨st1, r, hs, inv1⟩ := step_plain_ok extracted_repaired inv op hp
+      obtain ⟨st2, hr, inv2⟩ := no_ub rest st1 inv1 hrest
+      exact ⟨st2, by unfold runOps; rw [hs]; exact hr, inv2⟩
+    · obtain ⟨st1, r, hs, inv1, _⟩ := step_pen_ok extracted_repaired inv op hpe
       obtain ⟨st2, hr, inv2⟩ := no_ub rest st1 inv1 hrest
       exact ⟨st2, by unfold runOps; rw [hs]; exact hr, inv2⟩
     · subst he
@@ -126,7 +134,26 @@ example : (runOps extracted {} [.newTerm 10 20 false, .win 0 ⟨1, 1, 5, 10⟩ 0
     .act (.restack .raise 3), .act (.close 1), .act (.unref 3), .act .flush, .act (.unref 2), .act (.unref 1), .«end»]).isOk
     = true := by decide +kernel
 
+/-- Non-vacuity for the pen operations: a change handler that drops the application's only reference to the pen
+    while the pen is being set (the pen lives until `emit_change` lets go of it), a description that is applied inside
+    freeze/thaw, a copy whose destination's handler drops the source. -/
+example : PlainHistory [.pen, .pbind 0 [.unref 0], .pset 0 3, .«end»] := by
+  intro op hop; simp at hop; rcases hop with rfl | rfl | rfl | rfl <;> simp [Op.plain, Op.penEvent]
+
+example : (runOps extracted {} [.newTerm 6 12 false, .pen, .pbind 0 [.unref 0], .pset 0 3, .«end»]).isOk = true := by decide +kernel
+
+example : (runOps extracted {} [.newTerm 6 12 false, .pen, .pen, .pset 1 3, .pbind 0 [.unref 1], .pcopy 0 1 true, .«end»]).isOk
+    = true := by decide +kernel
+
 /-! ### the defects, as theorems about the model of the unrepaired tree -/
+
+/-- (0) `tickit_pen_copy` went on reading the source after the destination's change handlers had run: a handler that
+    drops the last reference to the source frees it under the loop. -/
+theorem pen_copy_src_dropped_counterexample :
+    (runOps { Cfg.fixed with penCopyKeepsSrc := false } {}
+      [.newTerm 6 12 false, .pen, .pen, .pset 1 3, .pbind 0 [.unref 1], .pcopy 0 1 true]).isOk = false := by
+  decide +kernel
+
 
 /-- (1) `tickit_window_destroy` wrote `child->parent = NULL` into the child its own unref had just freed:
     root > 1 > 2, `unref 1`. -/
@@ -194,6 +221,72 @@ theorem handlers_counterexample : ¬ no_ub_handlers_full := by
   rw [h3] at h2
   cases h2
 
+/-! ### key and mouse events delivered to handlers that free nothing -/
+
+/-- A history with events: operations that deliver no event, `bind` of handlers (on key or mouse events) whose
+    actions are anything but `tickit_window_unref` — close, take a reference, restack, hide, show, flush, unbind
+    themselves — key events (`tickit_term_emit_key`) and mouse events (`tickit_term_emit_mouse`: press, drag with
+    DRAG_START / DRAG_OUTSIDE, release with DRAG_DROP / DRAG_STOP, wheel). -/
+def EventHistory (ops : List Op) : Prop :=
+  ∀ op ∈ ops, (op.plain = true ∨ op.penEvent = true ∨ op = .key ∨ ∃ m, op = .mouse m) ∧
+    (∀ w ev ret acts, op = .bind w ev ret acts → ∀ a ∈ acts, a.keeps = true)
+
+/-- **no_ub with handlers (partial)**: for every history in which handlers free nothing, key and mouse events run to
+    the end — `_handle_key`, `_handle_mouse` and `on_term_mouse` find every window they follow alive (the children of
+    the snapshot, the focused child, the drag source), every frame gives back the references it took (its own window,
+    the counted snapshot of the children, the counted return of `_handle_mouse`, the root window held by
+    `on_term_mouse`), and the invariant of `no_ub` holds again afterwards.  The proof carries the account
+    `1 + int i ≤ refcount i ≤ appRefs i + int i` through the recursion, `int i` being the references the frames hold
+    on window `i` (Proof/LifeKeys.lean, Proof/LifeMouse.lean). -/
+theorem no_ub_handlers_keeping : ∀ (ops : List Op) (st : St), SInv st → KeepingHandlers st → EventHistory ops →
+    ∃ st', runOps extracted st ops = .ok st' ∧ SInv st' ∧ KeepingHandlers st'
+  | [], st, inv, H, _ => ⟨st, rfl, inv, H⟩
+  | op :: rest, st, inv, H, h => by
+    have hrest : EventHistory rest := fun o ho => h o (by simp [ho])
+    obtain ⟨hkind, hbind⟩ := h op (by simp)
+    rcases hkind with hp | hpe | hk | ⟨m, hm⟩
+    · obtain ⟨st1, r, hs, inv1⟩ := step_plain_ok extracted_repaired inv op hp
+      have H1 := step_plain_keeps hp H hbind hs
+      obtain ⟨st2, hr, inv2, H2⟩ := no_ub_handlers_keeping rest st1 inv1 H1 hrest
+      exact ⟨st2, by unfold runOps; rw [hs]; exact hr, inv2, H2⟩
+    · obtain ⟨st1, r, hs, inv1, hwx⟩ := step_pen_ok extracted_repaired inv op hpe
+      obtain ⟨st2, hr, inv2, H2⟩ := no_ub_handlers_keeping rest st1 inv1 (H.of_wx hwx) hrest
+      exact ⟨st2, by unfold runOps; rw [hs]; exact hr, inv2, H2⟩
+    · subst hk
+      obtain ⟨st1, r, hs, inv1, H1⟩ := step_key_ok extracted_repaired inv H
+      obtain ⟨st2, hr, inv2, H2⟩ := no_ub_handlers_keeping rest st1 inv1 H1 hrest
+      exact ⟨st2, by unfold runOps; rw [hs]; exact hr, inv2, H2⟩
+    · subst hm
+      obtain ⟨st1, r, hs, inv1, H1⟩ := step_mouse_ok extracted_repaired inv H m
+      obtain ⟨st2, hr, inv2, H2⟩ := no_ub_handlers_keeping rest st1 inv1 H1 hrest
+      exact ⟨st2, by unfold runOps; rw [hs]; exact hr, inv2, H2⟩
+
+theorem keepingHandlers_init (lines cols : Int) : KeepingHandlers
+    ({ tree := { wins := #[({ rect := ⟨0, 0, lines, cols⟩, isRoot := true } : WinTree.Win)], root := {} }, wx := #[{}],
+       term := { refcount := 2 } } : St) := by
+  intro i b hb
+  unfold getX at hb
+  by_cases hi : i = 0
+  · subst hi; simp at hb
+  · have : (#[({} : WinX)])[i]? = none := by apply Array.getElem?_eq_none; simp; omega
+    simp only [this, Option.getD_none] at hb
+    simp at hb
+
+/-- Non-vacuity: a key handler on a grandchild that closes its parent, takes a reference to the root, queues a
+    restacking request and unbinds itself, a second handler on the root that flushes; a mouse handler that claims the
+    event and closes its window (the drag source of the drag that follows); key events, press, drag, drag, release. -/
+example : EventHistory [.win 0 ⟨0, 0, 4, 8⟩ 0, .win 1 ⟨0, 0, 2, 4⟩ 0, .bind 2 .key false [.close 1, .ref 0, .restack .raise 2, .unbindSelf],
+    .bind 0 .key true [.flush], .key, .key, .win 0 ⟨0, 0, 3, 3⟩ 0, .bind 3 .mouse true [.close 3], .mouse ⟨1, 1, 1, 1⟩,
+    .mouse ⟨2, 1, 1, 2⟩, .mouse ⟨2, 1, 5, 5⟩, .mouse ⟨3, 1, 1, 1⟩] := by
+  intro op hop
+  simp at hop
+  rcases hop with rfl | rfl | rfl | rfl | rfl | rfl | rfl | rfl | rfl | rfl | rfl | rfl <;> simp [Op.plain, Op.penEvent, Act.keeps]
+
+example : (runOps extracted {} [.newTerm 6 12 false, .win 0 ⟨0, 0, 4, 8⟩ 0, .win 1 ⟨0, 0, 2, 4⟩ 0,
+    .bind 2 .key false [.close 1, .ref 0, .restack .raise 2, .unbindSelf], .bind 0 .key true [.flush], .key, .key,
+    .win 0 ⟨0, 0, 3, 3⟩ 0, .bind 3 .mouse true [.close 3], .mouse ⟨1, 1, 1, 1⟩, .mouse ⟨2, 1, 1, 2⟩, .mouse ⟨2, 1, 5, 5⟩,
+    .mouse ⟨3, 1, 1, 1⟩, .«end»]).isOk = true := by decide +kernel
+
 /-! ## refcount_inv — a count is the number of holders -/
 
 /-- **refcount_inv**: after every plain history from the start, (a) every live pen's count is the application's
@@ -253,6 +346,21 @@ theorem all_released (lines cols : Int) (mock : Bool) (ops : List Op) (h : Plain
   refine ⟨st2, ?_, hleft⟩
   have := runOps_append extracted (.newTerm lines cols mock :: ops) [.«end»] {} st1 hr
   rw [this]
+  unfold runOps step
+  simp only [hd, bind_ok, pure_ok]
+  rfl
+
+/-- The same from the very beginning, and with the final release of everything: nothing remains allocated. -/
+theorem all_released_handlers_keeping (lines cols : Int) (mock : Bool) (ops : List Op) (h : EventHistory ops) :
+    ∃ st, runOps extracted {} (.newTerm lines cols mock :: ops ++ [.«end»]) = .ok st ∧ anythingLeft st = false := by
+  obtain ⟨st1, hr, inv1, _⟩ := no_ub_handlers_keeping ops _ (SInv.init lines cols) (keepingHandlers_init lines cols) h
+  obtain ⟨st2, hd, _, hleft⟩ := drop_all_never_fails st1 inv1
+  refine ⟨st2, ?_, hleft⟩
+  have h0 : runOps extracted {} (.newTerm lines cols mock :: ops) = .ok st1 := by
+    unfold runOps step
+    exact hr
+  rw [show (Op.newTerm lines cols mock :: ops ++ [.«end»]) = (Op.newTerm lines cols mock :: ops) ++ [.«end»] from rfl]
+  rw [runOps_append extracted (.newTerm lines cols mock :: ops) [.«end»] {} st1 h0]
   unfold runOps step
   simp only [hd, bind_ok, pure_ok]
   rfl
